@@ -198,6 +198,7 @@ def check(payload):
         Q = shrink_program(P, still, budget=60)
         w, qtext, _ = one(Q, std, payload)
         v["shrunk"] = {"source": qtext, "detail": w["detail"] if w else None}
+        v["payload"] = dict(payload, program=Q.to_json())
         viols.append(v)
     return {"violations": viols, "digests": digs, "monitors": mons, "tally": {"form": [payload["form"]]},
             "sample": {"form": payload["form"], "text": text[:700]}}
